@@ -182,6 +182,8 @@ COMBINATORS = {
     "std::result::Result::and_then": ("res", 2, ("f", 1), ("self",)),
     "std::result::Result::unwrap_or_else": ("res", 2, ("x",), ("ferr", 1)),
     "std::result::Result::map_or": ("res", 3, ("f", 2), ("arg", 1)),
+    "std::option::Option::is_some_and": ("opt", 2, ("f", 1), ("false",)),
+    "std::result::Result::is_ok_and": ("res", 2, ("f", 1), ("false",)),
 }
 
 
@@ -897,6 +899,63 @@ class _Run:
                     self.write(s1, root, path, v_)
                     outs.append((s1, t["target"]))
                 return outs
+            if target_fn is None and callee["name"] in ("then", "then_some") and name.endswith("<impl bool>::" + callee["name"]) and len(args) == 2:
+                # cond.then(f) is `if cond { Some(f()) } else { None }`
+                atom, pol = self.bool_atom(args[0])
+                known = (payload(atom)[0] == pol) if tag(atom) == "bool" else None
+                if known is None and st.memo.get(atom) in (True, False):
+                    known = (st.memo[atom] == pol)
+                snap = st.fork()
+                try:
+                    outs = []
+                    for i, br in enumerate([True, False] if known is None else [bool(known)]):
+                        s1 = st if (known is not None or i == 1) else st.fork()
+                        if known is None:
+                            self.add_cond(s1, (atom, br == pol), bb_from=None, line=t["line"])
+                        if br:
+                            if callee["name"] == "then":
+                                r_ = self.call_closure(s1, args[1], [], bb, t)
+                                if r_ is None:
+                                    raise _NoIter()
+                            else:
+                                r_ = args[1]
+                            v_ = sym.agg("std::option::Option", "Some", ["0"], [r_])
+                        else:
+                            v_ = sym.agg("std::option::Option", "None", [], [])
+                        root, path = self.resolve(s1, t["dest"])
+                        self.write(s1, root, path, v_)
+                        outs.append((s1, t["target"]))
+                    return outs
+                except _NoIter:
+                    for k in _State.__slots__:
+                        setattr(st, k, getattr(snap, k))
+            if target_fn is None and name == "std::option::Option::transpose" and len(args) == 1 and tag(args[0]) == "agg" and payload(args[0])[1] in ("Some", "None"):
+                # Option<Result<T, E>> -> Result<Option<T>, E>
+                a0_ = args[0]
+                NONE_ = sym.agg("std::option::Option", "None", [], [])
+                outs = []
+                if payload(a0_)[1] == "None":
+                    alts_ = [(st, sym.agg("std::result::Result", "Ok", ["0"], [NONE_]))]
+                else:
+                    r_ = kids(a0_)[0]
+                    some_ok = lambda x: sym.agg("std::result::Result", "Ok", ["0"], [sym.agg("std::option::Option", "Some", ["0"], [x])])
+                    if tag(r_) == "agg" and payload(r_)[1] in ("Ok", "Err"):
+                        alts_ = [(st, some_ok(kids(r_)[0]) if payload(r_)[1] == "Ok" else r_)]
+                    else:
+                        at_ = sym.op("is_ok", r_)
+                        kn_ = st.memo.get(at_)
+                        if kn_ in (True, False):
+                            alts_ = [(st, some_ok(sym.unwrap(r_)) if kn_ else sym.agg("std::result::Result", "Err", ["0"], [mk("unwrap_err", (), (r_,))]))]
+                        else:
+                            s2 = st.fork()
+                            self.add_cond(st, (at_, True), bb_from=None, line=t["line"])
+                            self.add_cond(s2, (at_, False), bb_from=None, line=t["line"])
+                            alts_ = [(st, some_ok(sym.unwrap(r_))), (s2, sym.agg("std::result::Result", "Err", ["0"], [mk("unwrap_err", (), (r_,))]))]
+                for (s1, v_) in alts_:
+                    root, path = self.resolve(s1, t["dest"])
+                    self.write(s1, root, path, v_)
+                    outs.append((s1, t["target"]))
+                return outs
             if target_fn is None and name in COMBINATORS and len(args) == COMBINATORS[name][1]:
                 forked = self.combinator_call(st, bb, t, name, args)
                 if forked is not None:
@@ -923,8 +982,22 @@ class _Run:
             return mk(tag(v), payload(v), tuple(self.deep_deref(st, x, depth - 1) for x in kids(v)))
         return v
 
+    def lib_callable(self, clo):
+        """'unwrap' | 'id' for a library function item whose meaning is tabled (`.map(Option::unwrap)`, `.map(Clone::clone)`)"""
+        if tag(clo) != "fnref":
+            return None
+        nm = strip_generics(str(payload(clo)[0]))
+        if nm in UNWRAPS:
+            return "unwrap"
+        if nm in TRANSPARENT:
+            return "id"
+        return None
+
     def call_closure(self, st, clo, argvals, bb, t):
         """one call of a closure value with the given arguments, recorded as an event of this body"""
+        lc = self.lib_callable(clo)
+        if lc is not None and len(argvals) == 1:
+            return sym.unwrap(argvals[0]) if lc == "unwrap" else argvals[0]
         ctarget = self.closure_target(clo)
         is_item = tag(clo) == "fnref"
         if ctarget is None or ctarget.arg_count != (0 if is_item else 1) + len(argvals):
@@ -1123,7 +1196,7 @@ class _Run:
         x = args[0]
         some_v, none_v = ("Some", "None") if kind == "opt" else ("Ok", "Err")
         atom = sym.op("is_some" if kind == "opt" else "is_ok", x)
-        clos = [a for a in args[1:] if self.closure_target(a) is not None]
+        clos = [a for a in args[1:] if self.closure_target(a) is not None or self.lib_callable(a) is not None]
         need = sum(1 for spec in (present, absent) if spec[0] in ("f", "wrapf", "f0", "wrapf0", "ferr"))
         if len(clos) < need:
             return None
@@ -1141,6 +1214,9 @@ class _Run:
             if how == "x":
                 return payload_v
             if how == "self":
+                # (the Err of a Result passes through: spelt as an Err so that the path is classified as failing)
+                if kind == "res" and not is_present and not (tag(x) == "agg"):
+                    return sym.agg("std::result::Result", "Err", ["0"], [mk("unwrap_err", (), (x,))])
                 return x
             if how == "arg":
                 return args[spec[1]]
@@ -1150,6 +1226,8 @@ class _Run:
                 return sym.agg(spec[2][0], spec[2][1], ["0"], [args[spec[1]]])
             if how == "none":
                 return sym.agg("std::option::Option", "None", [], [])
+            if how == "false":
+                return sym.boolc(False)
             clo = args[spec[1]]
             if how in ("f", "wrapf", "ferr"):
                 r = self.call_closure(s1, clo, [payload_v], bb, t)
